@@ -36,6 +36,9 @@ type Spec struct {
 	Syscall string // e.g. "fsync"
 	When    int    // 1-based occurrence among calls of Syscall (after PathFilter, if any)
 	Errno   string // e.g. "EIO"
+	// Persistent: in Error mode fail the When-th call and every later one (strace when=N+),
+	// so that a retry loop cannot succeed.
+	Persistent bool
 	Argv    []string
 	Env     []string
 	Dir     string
@@ -96,7 +99,11 @@ func Run(s Spec) (*Result, error) {
 	args := []string{"-f", "-qq", "-s", "64", "-o", tf.Name(), "-e", "trace=" + set, "-e", "signal=none"}
 	switch s.Mode {
 	case Error:
-		args = append(args, "-e", fmt.Sprintf("inject=%s:error=%s:when=%d", s.Syscall, s.Errno, s.When))
+		plus := ""
+		if s.Persistent {
+			plus = "+"
+		}
+		args = append(args, "-e", fmt.Sprintf("inject=%s:error=%s:when=%d%s", s.Syscall, s.Errno, s.When, plus))
 	case Kill:
 		args = append(args, "-e", fmt.Sprintf("inject=%s:signal=KILL:when=%d", s.Syscall, s.When))
 	}
